@@ -12,6 +12,7 @@ import lib
 from lib import c_hex, c_str, c_bool, c_list, c_opt, c_pv, c_exn, exn_class
 import props.jws_common as J
 from props.jws_common import call, b64u, b64u_dec
+import props.c07_ref as REF
 
 PAYLOADS = [b"", b"hello", bytes([0, 255, 128, 46, 10, 200, 201]), "héllo wörld 中".encode(), b"a.b.c",
             b"url-safe_~09", b"not url safe!"]
@@ -77,12 +78,26 @@ class Run:
         else:
             r = call(jws.deserialize_compact, tok, key, algs)
         rows, calls = self.rec.take()
-        self.ctx.note_case(("dc", tok, J.key_id(keyobj) if hasattr(keyobj, "thumbprint") else 0, rfc7797, payload_arg))
+        arg_is_str = isinstance(payload_arg, str)
+        if arg_is_str:
+            payload_arg = payload_arg.encode("utf-8")       # to_bytes(str): the model takes the octets
+        self.ctx.note_case(("dc", tok, J.key_id(keyobj) if hasattr(keyobj, "thumbprint") else 0, rfc7797, payload_arg, arg_is_str))
         self.note(("compact97:" if rfc7797 else "compact:") + what.split(":")[0])
-        self.oracle(r, must_reject, orig, what, {"fn": "rfc7797.deserialize_compact" if rfc7797 else "jws.deserialize_compact",
-                                                 "token": tok.decode("latin1"), "key": keyobj.as_dict() if hasattr(keyobj, "as_dict") else repr(keyobj),
-                                                 "algorithms": algs, "payload_arg": payload_arg.decode("latin1") if payload_arg else None},
-                    lambda o: (o.protected, o.payload))
+        replay = {"fn": "rfc7797.deserialize_compact" if rfc7797 else "jws.deserialize_compact",
+                  "token": tok.decode("latin1"), "key": keyobj.as_dict() if hasattr(keyobj, "as_dict") else repr(keyobj),
+                  "algorithms": algs, "payload_arg": payload_arg.decode("latin1") if payload_arg is not None else None,
+                  "payload_arg_is_str": arg_is_str}
+        self.oracle(r, must_reject, orig, what, replay, lambda o: (o.protected, o.payload))
+        if r[0] == "ok":
+            # whatever .payload is returned must be octets the signature covers
+            hs, ps, ss = tok.split(b".")
+            try:
+                hdr = json.loads(b64u_dec(hs))
+            except Exception:
+                hdr = {}
+            unenc = rfc7797 and isinstance(hdr, dict) and hdr.get("b64") is False
+            si = hs + b"." + (r[1].payload if unenc else b64u(r[1].payload))
+            self.covered([si], calls, keyobj, [(hdr, ss)], what, replay, 1)
         if coq:
             if rfc7797:
                 term = "JDesCompact97 %s %s %s %s %s %s" % (J.c_table(rows), c_hex(tok), J.c_keysrc(keyobj),
@@ -104,10 +119,24 @@ class Run:
         rows, calls = self.rec.take()
         self.ctx.note_case(("dj", json.dumps(val, sort_keys=True, default=str), rfc7797))
         self.note(("json97:" if rfc7797 else "json:") + what.split(":")[0])
-        self.oracle(r, must_reject, orig, what, {"fn": "rfc7797.deserialize_json" if rfc7797 else "jws.deserialize_json",
-                                                 "value": val, "key": keyobj.as_dict() if hasattr(keyobj, "as_dict") else repr(keyobj),
-                                                 "algorithms": algs},
-                    lambda o: ([m.protected for m in o.members], o.payload))
+        replay = {"fn": "rfc7797.deserialize_json" if rfc7797 else "jws.deserialize_json",
+                  "value": val, "key": keyobj.as_dict() if hasattr(keyobj, "as_dict") else repr(keyobj), "algorithms": algs}
+        self.oracle(r, must_reject, orig, what, replay, lambda o: ([m.protected for m in o.members], o.payload))
+        if r[0] == "ok" and J.modelable_json(val):
+            sigs = val["signatures"] if "signatures" in val else [val]
+            sis, hdrs = [], []
+            for sg in sigs:
+                prot = sg.get("protected", "")
+                try:
+                    ph = json.loads(b64u_dec(prot.encode())) if prot else {}
+                except Exception:
+                    ph = {}
+                merged = dict(ph or {})
+                merged.update(sg.get("header") or {})
+                unenc = rfc7797 and "signatures" not in val and merged.get("b64") is False
+                sis.append(prot.encode() + b"." + (r[1].payload if unenc else b64u(r[1].payload)))
+                hdrs.append((merged, sg.get("signature", "").encode()))
+            self.covered(sis, calls, keyobj, hdrs, what, replay, len(sigs))
         if coq and J.modelable_json(val):
             if rfc7797:
                 term = "JDesJson97 %s %s %s %s %s %s" % (J.c_table(rows), c_bool(self.fixed), J.c_jval(val), J.c_keysrc(keyobj),
@@ -118,6 +147,30 @@ class Run:
             self.add(term, {"fn": "deserialize_json97" if rfc7797 else "deserialize_json", "what": what,
                             "value": json.dumps(val, default=str)[:400], "impl": repr(r[1])[:120]})
         return r
+
+    def covered(self, sis, calls, keyobj, hdrs, what, replay, nsig):
+        """accepted: (a) every message handed to a verifying primitive is the signing input built
+        from the RETURNED payload, and there is one accepting call per signature; (b) independently
+        (props/c07_ref.py, pyca directly) the signature is valid over that signing input"""
+        ctx = self.ctx
+        vcalls = [c for c in calls if c[0] == "verify"]
+        okc = [c for c in vcalls if c[5] == ("ok", True)]
+        if len(okc) < nsig or any(c[3] not in sis for c in vcalls):
+            ctx.violation({"kind": "returned-payload-not-verified", "fault": what.split(":")[0]},
+                          "accepted, but the octets handed to the primitive (%r) are not the signing input of the returned payload (%r)" % (
+                              [c[3][-40:] for c in vcalls], [x[-40:] for x in sis]), dict(replay, what=what))
+            return
+        for si, (hdr, sseg) in zip(sis, hdrs):
+            alg = hdr.get("alg")
+            kobj = next((c[2] for c in okc if c[3] == si), None)     # the key the accepting call used
+            if alg not in REF.ALG_PARAMS or not hasattr(kobj, "key_type"):
+                continue
+            jwk = kobj.as_dict(private=True) if kobj.key_type == "oct" else kobj.as_dict(private=False)
+            v = call(REF.raw_verify, alg, jwk, si, b64u_dec(sseg))
+            if v != ("ok", True):
+                ctx.violation({"kind": "returned-payload-not-signed", "fault": what.split(":")[0]},
+                              "accepted, but the signature is not valid over the signing input of the returned payload (reference: %r)" % (v[1],),
+                              dict(replay, what=what))
 
     def oracle(self, r, must_reject, orig, what, replay, view):
         ctx = self.ctx
@@ -279,6 +332,29 @@ def run(ctx):
                 h3 = dict(h, b64=False, crit=["b64"])
                 t3 = b64u(json.dumps(h3, separators=(",", ":")).encode()) + b"." + ps + b"." + ss
                 R.des_compact(t3, vk, [alg], True, orig, "add-b64-false-to-header", rfc7797=True)
+        # rfc7797 entry point: {payload embedded, payload segment empty} x payload argument
+        for i, (tok, alg, kn, vk, h, pl, b64, parg) in enumerate(compact_tokens):
+            if quick and b64 is None and i % 3:
+                continue
+            hs, ps, ss = tok.split(b".")
+            embedded = ps != b""
+            other = b"other-payload" if pl != b"other-payload" else b"x"
+            args = [("absent", None), ("equal-bytes", pl), ("different", other), ("empty-bytes", b""), ("empty-str", ""),
+                    ("prefix", pl[:max(0, len(pl) - 1)]), ("extended", pl + b"~"), ("segment-text", ps)]
+            try:
+                args.append(("equal-str", pl.decode("utf-8")))
+                args.append(("different-str", other.decode()))
+            except ValueError:
+                pass
+            for name, arg in args:
+                argb = arg.encode("utf-8") if isinstance(arg, str) else arg
+                if b64 is False:
+                    effective = argb if argb else ps          # `if payload:` else the payload segment
+                    must_reject = effective != pl
+                else:
+                    must_reject = False                       # the argument is ignored
+                R.des_compact(tok, vk, [alg], must_reject, (h, pl), "payload-arg-%s:%s:b64=%s" % (name, "embedded" if embedded else "detached", b64),
+                              rfc7797=True, payload_arg=arg)
         # segment swaps between two valid tokens of the same algorithm and key
         for alg, idx in by_alg.items():
             pairs = [(a, b) for a in idx for b in idx if a < b and compact_tokens[a][2] == compact_tokens[b][2]
@@ -417,6 +493,25 @@ def run(ctx):
                         else:
                             v2["payload"] = b64u(J.flip_bit(pl, rng.randrange(len(pl) * 8))).decode()
                     edit(hh, "bitflip-payload")
+
+            edit(lambda v2, s2: v2.__setitem__("payload", ""), "payload-member-empty", must_reject=bool(pl), o=orig)
+            if len(pl) > 1:
+                def pfx(v2, s2):
+                    try:
+                        v2["payload"] = pl[:-1].decode("utf-8") if b64 is False else b64u(pl[:-1]).decode()
+                    except ValueError:
+                        return False
+                edit(pfx, "payload-member-prefix")
+            if b64 is False:
+                # the BASE64URL text in place of the unencoded payload (and vice versa below)
+                edit(lambda v2, s2: v2.__setitem__("payload", b64u(pl).decode()), "payload-member-encoded-instead", must_reject=b64u(pl) != pl)
+            elif pl and nsig == 0:
+                def rawp(v2, s2):
+                    try:
+                        v2["payload"] = pl.decode("utf-8")
+                    except ValueError:
+                        return False
+                edit(rawp, "payload-member-raw-instead")
 
             def trunc(v2, s2):
                 raw = b64u_dec(s2[which]["signature"].encode())
